@@ -274,7 +274,9 @@ class TGen:
             e = self.expr(m)
             if e is not None and rng.random() < 0.8:
                 names.append(e)
-            if not names:
+            if rng.random() < 0.25:
+                names = []                     # cols=None: all columns
+            elif not names:
                 return None
             return ("d_select", tid, sels, tuple(names))
         if kind == "ctor":
@@ -303,6 +305,8 @@ class TGen:
             if not num or n < 2:
                 return None
             return ("setcol_b", tid, rng.choice(num), rng.randint(-3, 9), rng.choice(["scalar", "0d", "1el"]))
+        if kind == "show":
+            return ("show", tid, rng.random() < 0.5)
         if kind == "labelcol":
             self.newcol += 1
             return ("labelcol", tid, "lab%d" % self.newcol)
@@ -421,7 +425,7 @@ class TGen:
                     kd = dict(self.kinds[tid])
                     for tx in values:
                         kd[tx] = "f"
-                    self._add(sub.take_cols(texts, values), kd)
+                    self._add(sub.take_cols(texts if names else list(m.cols), values), kd)
             elif kind == "d_copy":
                 self._add(M[op[1]].copy(), self.kinds[op[1]])
             elif kind == "d_mul":
